@@ -2,17 +2,17 @@
 
 PROP = {
     "pkg": "internal/dhcpd",
-    "files": ["dhcpd/c10_world_test.go", "dhcpd/c10_machine_test.go"],
+    "files": ["dhcpd/c10_world_test.go", "dhcpd/c10_machine_test.go", "dhcpd/c10_regress_test.go"],
     "claimed": False,
     "level": "exploration",
     "technique": "property-based testing (rapid): stateful history machine against a reference model",
     "level_text": "tbd",
     "level_note": "tbd",
     "tests": [
-        ("TestVFC10Machine", (400, 3000), {"steps": 40}),
-        ("TestVFC10OfferWhenFree", (300, 2000)),
+        ("TestVFC10Machine", (500, 3000), {"steps": 40}),
+        ("TestVFC10OfferWhenFree", (400, 2000)),
     ],
-    "plain": [],
+    "plain": ["TestVFC10Regress"],
     "shards": (4, 16),
     "workers": (4, 16),
     "rule": "tbd",
